@@ -81,14 +81,58 @@ func specialEval(w *world, rep *vevid.Report, clause, scenario, history string, 
 			rep.DistinctNontrivial++
 		}
 		if len(bad) > 0 {
-			rep.Count("viol "+clause+" "+scenario, 1)
-			rep.Violate(vevid.Violation{Clause: clause, Scenario: scenario, Site: "scripted", Replay: Case{Special: "all"},
+			// a disagreement the as-built place model reproduces item by item is an instance of the two recorded
+			// deviations, not of the scripted scenario's own clause
+			cl, sc, site := clause, scenario, "scripted"
+			if err == nil {
+				alt := m.alts[0].eval(q)
+				names := map[string]bool{}
+				for _, sel := range q.Sels {
+					if c := classify(q, sel, sel.String(), exp, alt, got); c != "result-differs" {
+						names[c] = true
+					} else if itemBad(sel.String(), exp, got) {
+						names = map[string]bool{"": true}
+						break
+					}
+				}
+				if len(names) == 1 && !names[""] {
+					for c := range names {
+						cl = c
+					}
+					sc, site = "multi", "leaf"
+					if len(q.Sels) == 1 {
+						sc = q.Sels[0].F + "." + q.Sels[0].Fn
+					}
+				}
+			}
+			rep.Count("viol "+cl+" "+scenario, 1)
+			rep.Violate(vevid.Violation{Clause: cl, Scenario: sc, Site: site, Replay: Case{Special: "all"},
 				Detail: fmt.Sprintf("%s\nreference: %s\nlindb:     %s\nhistory: %s\nquery: %s", strings.Join(bad, "; "), renderExp(exp), renderGot(got), history, q.sql("M"))})
 		}
 		if timedOut {
 			return // the rest of the menu would only wait for more timeouts
 		}
 	}
+}
+
+// itemBad: lindb's answer for one select item differs from the reference.
+func itemBad(item string, exp map[string]*expPoint, got map[string]float64) bool {
+	for k, e := range exp {
+		if strings.Split(k, "|")[1] != item {
+			continue
+		}
+		if g, ok := got[k]; !ok || !e.cands.has(g) {
+			return true
+		}
+	}
+	for k := range got {
+		if strings.Split(k, "|")[1] == item {
+			if _, ok := exp[k]; !ok {
+				return true
+			}
+		}
+	}
+	return false
 }
 
 func isTimeout(err error) bool {
